@@ -16,7 +16,7 @@ pub fn mon() -> Mon {
         run,
         finish,
         replay,
-        rule: "Receive corpus (all message types, requests and responses, valid and invalid; same systematic sweeps as C10 plus random mixture) on long-lived contexts in varied states, plus a marathon of 70 000 EID-changing assignments on one context. For each input decode_packet(x) and then process_packet(x, rb) run on the same context, rb being 64..300 bytes of seeded random poison. Oracle: same message type and payload (offset and length inside the input) or same error value; Some(len) only when decoding succeeded on a control message with the request bit set, len <= rb.len(), rb[len..] == poison; otherwise rb == poison entirely. A process_packet panic on an input that decodes fine is a refuting event keyed by the byte-determined input class. Non-trivial = input judged with both results present; distinct = distinct input byte strings.",
+        rule: "Receive corpus (all message types, requests and responses, valid and invalid; same systematic sweeps as C10 plus random mixture) on long-lived contexts in varied states, plus a marathon of 70 000 EID-changing assignments on one context; one input in eight is preceded on the same context by its repaired version (byte count and PEC fixed up) being processed, so that it arrives as an altered retransmission. For each input decode_packet(x) and then process_packet(x, rb) run on the same context, rb being 64..300 bytes of seeded random poison. Oracle: same message type and payload (offset and length inside the input) or same error value; Some(len) only when decoding succeeded on a control message with the request bit set, len <= rb.len(), rb[len..] == poison; otherwise rb == poison entirely. A process_packet panic on an input that decodes fine is a refuting event keyed by the byte-determined input class. Non-trivial = input judged with both results present; distinct = distinct input byte strings.",
         assumptions: &[
             "decode_packet is read-only (checked by the twin context in C13), so calling it first does not disturb process_packet",
             "validly configured contexts and response buffers of at least 64 bytes",
@@ -31,6 +31,18 @@ pub fn check(ctx: &MCTPSMBusContext, cfgs: &CtxCfg, x: &[u8], rblen: usize, psee
     let case = || format!("{}|{}|{:x}|{}", cfgs.encode(), rblen, pseed, hex(x));
     let poison = Rng::new(pseed).bytes(rblen);
     let mut rb = poison.clone();
+    // one input in eight arrives right after its *repaired* version (byte count and PEC fixed up) was
+    // processed on the same context: the judged input is then a damaged or altered retransmission of
+    // something the endpoint has just answered or acted upon (a response or retry cache would be primed)
+    if pseed % 8 == 0 && x.len() >= 10 {
+        let mut v = x.to_vec();
+        crate::refmodel::forge::fix_count_and_pec(&mut v);
+        if v != x {
+            let mut rb0 = vec![0x33u8; rblen.max(64)];
+            let _ = process(ctx, &v, &mut rb0);
+            rep.class("primed:repaired-version-processed-first");
+        }
+    }
     let d = decode(ctx, x);
     let p = process(ctx, x, &mut rb);
     let f = facts(x);
